@@ -89,6 +89,7 @@ func RoutingFile(baseIdx int, sub, pkg, goImport, goName string, lit *int, full 
 	nameIdx := 0
 	litOverride := "" // a literal shared by several methods (same path, different verbs)
 	var declOrder []string
+	var queryOverride [][2]string // {proto field name, query parameter name} instead of q/page_size
 	add := func(cfg, verb, shapeLabel string, tmpl string, vars []string, hasVerb bool, leadingSlash bool) {
 		*lit++
 		k := *lit
@@ -118,7 +119,13 @@ func RoutingFile(baseIdx int, sub, pkg, goImport, goName string, lit *int, full 
 			num++
 		}
 		query := map[string]string{}
-		if (!bodyVerb && (len(vars) == 0 || cfg == "pathquery")) || cfg == "bodyquery" {
+		if queryOverride != nil {
+			for _, qf := range queryOverride {
+				req.Fields = append(req.Fields, spec.F(qf[0], num, spec.String).Q(qf[1]))
+				query[qf[0]] = qf[1]
+				num++
+			}
+		} else if (!bodyVerb && (len(vars) == 0 || cfg == "pathquery")) || cfg == "bodyquery" {
 			req.Fields = append(req.Fields, spec.F("q", num, spec.String).Q("q"), spec.F("page_size", num+1, spec.Int32).Q("limit"))
 			num += 2
 			query = map[string]string{"q": "q", "page_size": "limit"}
@@ -197,6 +204,14 @@ func RoutingFile(baseIdx int, sub, pkg, goImport, goName string, lit *int, full 
 				add("pathquery", v, PathShapes[ps].Label, PathShapes[ps].Tmpl, PathShapes[ps].Vars, true, true)
 			}
 		}
+		// declared AFTER routes with the path variables {id} and {org_id}: query-bound fields with the very
+		// same proto names (and other parameter names) on routes without, and with another, path variable
+		queryOverride = [][2]string{{"id", "id"}, {"org_id", "org"}}
+		add("pathquery", "GET", "query-fields-named-like-earlier-path-variables", "/%s", nil, true, true)
+		add("pathquery", "DELETE", "query-fields-named-like-earlier-path-variables", "/%s", nil, true, true)
+		queryOverride = [][2]string{{"org_id", "org_id"}}
+		add("pathquery", "GET", "query-field-named-like-earlier-path-variable+own-var", "/%s/{id}", []string{"id"}, true, true)
+		queryOverride = nil
 	case "shared":
 		// one path shared by several verbs; trailing slashes; the bare "/" under the base path
 		for gi, g := range []struct {
